@@ -1,7 +1,8 @@
 (* C11 — Pattern strings mean what the syntax documentation says.
    Statements only; every proof is [exact <lemma>].  Open statements are listed at the end. *)
 From PV.Model Require Import Machine Mapping Views Pattern Exec ScanView.
-From PV.Proofs Require PatternProofs ExecProofs ViewsProofs.
+From PV.Spec Require Import PatSyntax PatSem.
+From PV.Proofs Require PatternProofs ExecProofs ViewsProofs PatSyntaxProofs PatSemProofs.
 Import ExecProofs.
 
 (* Parsing ANY byte string terminates (fuel = length + 1) with a pattern or an error whose position lies within the input. *)
@@ -59,10 +60,100 @@ Example C11_nonvacuous :
   = Ok (inr [Save 0; Byte 185; Save 1; Skip 2; Byte 104; Skip 4; Byte 232; Push 4; Jump4; Save 2; Pop; Byte 139]).
 Proof. vm_compute. reflexivity. Qed.
 
-(* OPEN: C11_parse_show_compile : forall a, wf a -> parse (show a) = Ok (inr (compile a))
-   - the parser inverts the printer of the documented syntax (DESIGN.md section 7 C11 theorem 2). Not proved;
-   carried by the correspondence check, whose generator prints patterns from an AST of the documented syntax. *)
+(* Theorem 2 on the fragment without braces and alternatives: the parser inverts the printer of the documented syntax.
+   [show] prints an AST (Spec/PatSyntax.v) in the canonical spelling, [compile] is the intended compiler, [wf] bounds the
+   numbers (bytes < 256, skips < 16384, a < b, at most 254 captures, @0..@Z, no double quote inside a string). *)
+Theorem C11_parse_show_compile_flat : forall a, flat a = true -> wf a -> parse (show a) = Ok (inr (compile a)).
+Proof. exact PatSyntaxProofs.parse_show_compile_flat. Qed.
+Print Assumptions C11_parse_show_compile_flat.
+
+(* Theorem 2 in full: braces after jumps and parenthesised alternatives (nested to any depth) included. [wf] adds that
+   every Case/Break offset of a group fits a byte (alt_ok) - beyond that the real parser answers SubOverflow. *)
+Theorem C11_parse_show_compile : forall a, wf a -> parse (show a) = Ok (inr (compile a)).
+Proof. exact PatSyntaxProofs.parse_show_compile. Qed.
+Print Assumptions C11_parse_show_compile.
+
+(* the documented reading "[n] is n consecutive question marks", for the compiler: n question marks after a skip of k
+   bytes make one skip of k + n bytes, up to 255 *)
+Theorem C11_wild_run : forall n c k, last_atom (c_res c) = Some (Skip k) -> c_closed c = false -> 0 < k -> (N.to_nat k + n <= 255)%nat ->
+  c_res (Nat.iter n wild1 c) = set_last (c_res c) (Skip (k + N.of_nat n)).
+Proof. exact PatSyntaxProofs.wild_run. Qed.
+Print Assumptions C11_wild_run.
+
+Example C11_syntax_nonvacuous :
+  let a := [IByte 0x83; IAlt [IByte 0x6a; IWild 1] [[IByte 0x68; IWild 4]; [ISub J4 [ISave; IRange 2 300]]]; IWild 2; IByte 0xe8; IRead RI8; IWild 3] in
+  wf a /\ compile a = [Save 0; Byte 0x83; Case 3; Byte 0x6a; Skip 1; Break 12; Case 3; Byte 0x68; Skip 4; Break 8; Nop; Push 4; Jump4; Save 1; Skip 2;
+                       Rangext 1; Many 42; Pop; Skip 2; Byte 0xe8; ReadI8 2].
+Proof. exact PatSyntaxProofs.syntax_nonvacuous. Qed.
+
+(* Theorem 3a: compiler correctness of the pattern VM on the fragment without braces and alternatives. [den_top]
+   (Spec/PatSem.v) is the structural meaning of the AST: Some log = the layout at the cursor satisfies the pattern, with the
+   captures in order of appearance. Scanner::exec on the compiled pattern returns true exactly then, and the save array it
+   leaves is the given one with the captures of the log stored (slots beyond the array dropped) - range skips [a-b]
+   (retry loop, first-byte peeking) included. [scan_wf]: byte reads give bytes, a readable byte is not at rva 2^32-1,
+   pointers translate to u32 rvas, the slice at a cursor shows the same bytes as byte reads. [ends_solid]: the last item
+   constrains something (the parser trims trailing skips, C11_exec_comp_den_flat is the statement without trimming). *)
+Theorem C11_exec_compile_den_flat : forall sc a cursor save,
+  scan_wf sc -> flat a = true -> wf a -> ends_solid a = true -> cursor < W32 ->
+  exists ok save', run_exec sc (compile a) cursor save = Ok (ok, save') /\
+    match den_top sc a cursor with
+    | Some lg => ok = true /\ save' = apply_log lg save
+    | None => ok = false
+    end.
+Proof. exact PatSemProofs.exec_compile_den_flat. Qed.
+Print Assumptions C11_exec_compile_den_flat.
+
+Theorem C11_exec_comp_den_flat : forall sc a cursor save, scan_wf sc -> flat a = true -> wf a -> cursor < W32 ->
+  exists ok save', run_exec sc (c_res (comp_seq a cinit)) cursor save = Ok (ok, save') /\
+    match den_top sc a cursor with
+    | Some lg => ok = true /\ save' = apply_log lg save
+    | None => ok = false
+    end.
+Proof. exact PatSemProofs.exec_comp_den_flat. Qed.
+Print Assumptions C11_exec_comp_den_flat.
+
+(* a pattern whose last item constrains something is compiled without trimming *)
+Theorem C11_compile_solid : forall a, ends_solid a = true -> compile a = c_res (comp_seq a cinit).
+Proof. exact PatSemProofs.compile_solid. Qed.
+Print Assumptions C11_compile_solid.
+
+(* the hypotheses on the Scan implementation are satisfiable: any byte list below 4 GiB as one flat section *)
+Theorem C11_scan_wf_satisfiable : forall mem base, Forall (fun b => b < 256) mem -> base + lenN mem < W32 ->
+  scan_wf (PatSemProofs.list_scan mem base).
+Proof. exact PatSemProofs.list_scan_wf. Qed.
+Print Assumptions C11_scan_wf_satisfiable.
+
+(* ... and hold for every mapped view (PeView) over a buffer of bytes shorter than 4 GiB; so theorem 3a speaks about
+   Scanner::exec on such a view *)
+Theorem C11_mapped_view_scan_wf : forall v, ViewsProofs.view_ok v -> v_file v = false -> v_len v < W32 -> (forall o, v_get v o < 256) ->
+  scan_wf (scan_of_view v).
+Proof. exact PatSemProofs.mapped_view_scan_wf. Qed.
+Print Assumptions C11_mapped_view_scan_wf.
+Theorem C11_view_exec_compile_den_flat : forall v a cursor save,
+  ViewsProofs.view_ok v -> v_file v = false -> v_len v < W32 -> (forall o, v_get v o < 256) ->
+  flat a = true -> wf a -> ends_solid a = true -> cursor < W32 ->
+  exists ok save', view_exec v (compile a) cursor save = Ok (ok, save') /\
+    match den_top (scan_of_view v) a cursor with
+    | Some lg => ok = true /\ save' = apply_log lg save
+    | None => ok = false
+    end.
+Proof. exact PatSemProofs.view_exec_compile_den_flat. Qed.
+Print Assumptions C11_view_exec_compile_den_flat.
+
+(* 50 [1-3] ' ff u1 on 50 aa bb ff 07: two bytes are skipped (one is not enough); captures: rva of ff, the value 7 *)
+Example C11_sem_nonvacuous :
+  let a := [IByte 0x50; IRange 1 3; ISave; IByte 0xff; IRead RU8] in
+  let sc := PatSemProofs.list_scan [0x50; 0xaa; 0xbb; 0xff; 0x07] 0x1000 in
+  wf a /\ flat a = true /\ ends_solid a = true /\
+  den_top sc a 0x1000 = Some [(0, 0x1000); (1, 0x1003); (2, 7)] /\
+  run_exec sc (compile a) 0x1000 [0; 0; 0; 9] = Ok (true, [0x1000; 0x1003; 7; 9]) /\
+  den_top sc a 0x1001 = None /\ run_exec sc (compile a) 0x1001 [0; 0; 0; 9] = Ok (false, [0x1001; 0; 0; 9]).
+Proof. exact PatSemProofs.sem_nonvacuous. Qed.
+
 (* OPEN: C11_exec_compile_den : forall a, wf a -> ~ range_skip_in_last_alternative_with_suffix a ->
    forall scan c sigma, exec (compile a) scan c sigma = den a scan c sigma
-   - compiler correctness of the backtracking VM against a structural semantics (theorem 3). Not proved; the
-   harness's layout synthesiser plays the role of den as a TEST oracle (expected verdict and captures). *)
+   - theorem 3 for braces and alternatives (3b). Proved for the fragment without them (C11_exec_compile_den_flat).
+   What is missing: [den] for ISub / IAlt (atomic groups, slot numbering per alternative, F34 class) and the simulation for
+   Push/Pop/Case/Break, whose invocations return the program counter (the fold [aden] of Proofs/PatSemProofs.v would have to
+   return the remaining atoms); on failure the save array keeps writes of failed alternatives, so the statement about the
+   save array must be the weaker one of DESIGN.md (slots written by the log hold the log's last value). *)
